@@ -124,6 +124,10 @@ func (ci *crdIpam) handleFIPUnassign(obj interface{}) error {
 	if !ok {
 		return fmt.Errorf("%s already been released", ipStr)
 	}
+	if _, reserved := allocated.Labels[constant.ReserveFIPLabel]; !reserved {
+		// a late delete event of a reserved ip which has been allocated to a pod in the meantime
+		return fmt.Errorf("%s is no longer reserved, it is allocated to %s", ipStr, allocated.Key)
+	}
 	ci.syncCacheAfterDel(allocated)
 	glog.Infof("released reserved ip %s", ipStr)
 	return nil
